@@ -6,7 +6,7 @@
  *
  *   contfs plant <tag> (<dir> <kind>)...    "planted <i> <kind> <top-level entries created> <errno>"
  *   contfs list <dir>...                    "list <dir> <count | -errno> <hexname>..."   (<= 24 names)
- *   contfs fs <op>...                       "fs <i> <errno>"   ops: reg:P unr:P dir:P sym:P:T fifo:P sock:P rm:P
+ *   contfs fs <op>...                       "fs <i> <errno>"   ops: reg:P unr:P dir:P sym:P:T fifo:P sock:P rm:P nreg:DIR:N
  *   contfs memfd <fd>                       "mut <target> <op> <errno-name>" ; "seals <hex>" ; "size <n>"
  */
 #define _GNU_SOURCE
@@ -304,6 +304,22 @@ static int fsop(char *op) {
         int e = bind(s, (struct sockaddr *)&a, sizeof a) ? errno : 0;
         close(s);
         return e;
+    }
+    if (!strcmp(kind, "nreg")) {                 /* nreg:<dir>:<count>  numbered regular files with distinct content */
+        t = strchr(p, ':');
+        if (!t) return EINVAL;
+        *t++ = 0;
+        if (mkdir(p, 0755)) return errno;
+        char name[400], pad[86];
+        memset(pad, 'n', 85); pad[85] = 0;
+        for (int i = 1; i <= atoi(t); i++) {
+            snprintf(name, sizeof name, "%s/%04d-%s", p, i, pad);
+            int fd = open(name, O_WRONLY | O_CREAT | O_EXCL, 0644);
+            if (fd < 0) return errno;
+            if (dprintf(fd, "file %d\n", i) < 0) { close(fd); return errno; }
+            close(fd);
+        }
+        return 0;
     }
     if (!strcmp(kind, "rm")) {
         if (unlink(p) == 0) return 0;
